@@ -359,3 +359,75 @@ pub fn corpus(out: &mut Out, path: &str) -> usize {
     }
     n
 }
+
+/// C01 / C06 quantify over *every* probe from the same state, and every query purges what it meets: the state
+/// is rebuilt for each probe. A build history (inserts with assorted lifetimes, the clock advancing, a few purging
+/// queries and re-insertions of expired keys in between — so that expired entries sit unpurged at every depth of
+/// a tree already shaped by earlier removals) is generated once; then for each time of interest and each key —
+/// stored and live, stored and expired, absent — one lookup / predecessor query is made on a fresh replay of it.
+pub fn probe_all_keys(out: &mut Out, coll: &str, rng: &mut Rng, trees: usize, sizes: &[i64]) -> usize {
+    let suite = format!("probe-{}", coll);
+    let mut probes = 0;
+    for ti in 0..trees {
+        let n = sizes[ti % sizes.len()];
+        let cap = [0usize, 8, 9, 64][ti % 4];
+        // ---- the build history, generated against the reference so that it stays inside the contract
+        let mut build: Vec<Op> = Vec::new();
+        let mut t: i64 = 0;
+        {
+            let mut g = Runner::new(out, "probe-build", coll, cap, 0);
+            g.emit = false;
+            let style = ti % 3; // 0: inserts only at time 0, 1: sweep with purging queries, 2: long sweep with churn
+            let len = match style { 0 => n, 1 => 3 * n, _ => 6 * n };
+            for i in 0..len {
+                if g.dead { break; }
+                if style > 0 && rng.chance(1, 4) { t += 1; }
+                let roll = rng.below(100);
+                if style == 0 || roll < 70 {
+                    let mut k = 2 * rng.range(0, n - 1);
+                    let mut guard = 0;
+                    while g.refm.is_live(k, t) && guard < 2 * n { k = (k + 2) % (2 * n); guard += 1; }
+                    if g.refm.is_live(k, t) { continue; }
+                    let life = if style == 0 { [3i64, 6, 9, 1000, 1000][rng.below(5) as usize] } else { [1i64, 2, 3, 5, 8, 1000][rng.below(6) as usize] };
+                    let op = Op::new("insert", &[k, t + life, 7 * k + i, t]);
+                    g.step(&op, None); build.push(op);
+                } else {
+                    let q = ["get", "fle", "fl"][rng.below(3) as usize];
+                    let op = Op::new(q, &[t, rng.range(-1, 2 * n)]);
+                    g.step(&op, None); build.push(op);
+                }
+            }
+            g.end();
+        }
+        // ---- the probes
+        let times: Vec<i64> = if ti % 3 == 0 { vec![3, 5, 6, 9] } else { vec![t, t + 1, t + 2, t + 4] };
+        for &tp in &times {
+            let mut pk: Vec<i64> = (-1..2 * n + 1).collect();
+            if n > 24 { pk.retain(|_| rng.chance(1, 2)); }
+            for &k in &pk {
+                for (qi, q) in ["get", "fle", "fl"].iter().enumerate() {
+                    // every probe kind on the stored keys, the gaps with the predecessor queries only
+                    if k % 2 != 0 && qi == 0 { continue; }
+                    if qi == 2 && rng.chance(1, 2) { continue; }
+                    let mut r = Runner::new(out, &suite, coll, cap, 0);
+                    r.emit = false; r.oracles = false;
+                    for o in &build {
+                        r.step_light(o); r.ops.push(o.clone());
+                        if o.name == "insert" { r.ref_update(o, None); r.refm.last_t = r.refm.last_t.max(o.a[3]); } else { r.refm.last_t = r.refm.last_t.max(o.a[0]); }
+                        if r.dead { break; }
+                    }
+                    if r.dead { continue; }
+                    // (the storage-bound oracle needs the peak population: the quiet replay did not track it; the
+                    // number of insertions is an upper bound)
+                    r.refm.peak = r.refm.peak.max(build.iter().filter(|o| o.name == "insert").count());
+                    r.oracles = true;
+                    r.emit = true;
+                    r.step(&Op::new(q, &[tp, k]), None);
+                    probes += 1;
+                    r.end();
+                }
+            }
+        }
+    }
+    probes
+}
